@@ -78,6 +78,8 @@ L1(e) ==
   \cup (IF e.last /\ \E c \in DOMAIN e.proj.done : e.proj.done[c] = "pending" THEN {"C06_Terminates"} ELSE {})
   \cup (IF e.quiet /\ (e.proj.q_on \/ e.proj.p_on \/ e.proj.waiting_get > 0 \/ e.proj.waiting_put > 0)
         THEN {"C20_NoLeak"} ELSE {})
+  \* C09: over the whole behaviour no (transaction id, address) pair is used for two requests
+  \cup (IF e.tid_reused # <<>> THEN {"C09_TidsNotReused"} ELSE {})
 
 TInit == /\ s = [tid |-> 0, infl |-> {}, q |-> NoQ, p |-> NoP, cache |-> NoC, gs |-> {}, ps |-> {}, mbox |-> <<>>,
                  called |-> {}, done |-> [c \in Calls |-> "pending"], outcomes |-> [c \in Calls |-> 0], net |-> {}, rt |-> Boot, cap |-> 0]
